@@ -20,7 +20,9 @@ func dataPaths() []struct {
 	}{
 		{"print", func(n int, d Expr) []Stmt { return []Stmt{Pr(V("s"))} }},
 		{"print-among-others", func(n int, d Expr) []Stmt { return []Stmt{Pr(S("a"), V("s"), N(1))} }},
-		{"assign", func(n int, d Expr) []Stmt { return []Stmt{Def("t", V("s")), VarT("u", TString), Set("u", V("t")), Pr(V("u"))} }},
+		{"assign", func(n int, d Expr) []Stmt {
+			return []Stmt{Def("t", V("s")), VarT("u", TString), Set("u", V("t")), Pr(V("u"))}
+		}},
 		{"concat", func(n int, d Expr) []Stmt { return []Stmt{Pr(Op("+", Op("+", S("<"), V("s")), S(">")))} }},
 		{"compare", func(n int, d Expr) []Stmt {
 			return []Stmt{Def("t", V("s")), Pr(Op("==", V("s"), V("t")), Op("!=", V("s"), S("a")), Op("==", V("s"), S("")))}
@@ -31,7 +33,9 @@ func dataPaths() []struct {
 		{"return", func(n int, d Expr) []Stmt {
 			return []Stmt{Fn("g", []ParamDecl{Pm("p", TString)}, []Type{TString, TInt}, Ret(V("p"), N(7))), DefN([]string{"a", "b"}, Call("g", V("s"))), Pr(V("a"), V("b"))}
 		}},
-		{"slice-literal", func(n int, d Expr) []Stmt { return []Stmt{Def("a", Strs(V("s"), S("z"))), Pr(Idx("a", N(0))), Pr(Len(V("a")))} }},
+		{"slice-literal", func(n int, d Expr) []Stmt {
+			return []Stmt{Def("a", Strs(V("s"), S("z"))), Pr(Idx("a", N(0))), Pr(Len(V("a")))}
+		}},
 		{"slice-store", func(n int, d Expr) []Stmt {
 			return []Stmt{Def("a", Strs()), SSet("a", N(1), V("s")), Pr(Idx("a", N(1))), Pr(Len(V("a")), Idx("a", N(0)))}
 		}},
